@@ -368,7 +368,7 @@ func (q *Seq) Step(from *net.UDPAddr, d []byte, what string, decaps func(ct []by
 		os[i] = e.Hx(o.Data)
 	}
 	ob := fmt.Sprintf("(SObs %d %s %d %d %d %s)", code, hv.List(os), nhs, nss, npend, keys)
-	q.steps = append(q.steps, fmt.Sprintf("SDgram %d %d %s %s (fun B => %s)", ip, from.Port, q.expr(d), hv.Hex(outcat),
+	q.steps = append(q.steps, fmt.Sprintf("SDgram %d %d %s %s (fun B : bytes => %s)", ip, from.Port, q.expr(d), hv.Hex(outcat),
 		hv.Tuple(e.Coq(), sin, ob)))
 	return
 }
